@@ -259,7 +259,16 @@ class NetMulti(Block):
         torch.manual_seed(0)
         m = self.build(case)
         meths = sorted(m.mutation_methods)
-        obs = {"methods": meths, "desc0": self.desc(m), "shapes0": [], "steps": [], "chosen": []}
+        d0 = m.init_dict
+        hb, cb = d0["head_config"], d0["encoder_config"]["init_dicts"]
+        cb = cb[[k for k in cb if k != "vector_mlp"][0]]
+        obs = {"methods": meths, "desc0": self.desc(m), "shapes0": [], "steps": [], "chosen": [],
+               "bounds": {"latent": (int(d0["min_latent_dim"]), int(d0["max_latent_dim"])),
+                          "enc_latent": (int(d0["encoder_config"]["min_latent_dim"]), int(d0["encoder_config"]["max_latent_dim"])),
+                          "head.width": (int(hb["min_mlp_nodes"]), int(hb["max_mlp_nodes"])),
+                          "head.layers": (int(hb["min_hidden_layers"]), int(hb["max_hidden_layers"])),
+                          "cnn.width": (int(cb["min_channel_size"]), int(cb["max_channel_size"])),
+                          "cnn.layers": (int(cb["min_hidden_layers"]), int(cb["max_hidden_layers"]))}}
         every, n = case.get("every", 1), len(case["steps"])
         for i, step in enumerate(case["steps"]):
             rec = {"error": None, "attr": None, "ret": [], "shapes": None, "rebuilt": None}
@@ -294,7 +303,7 @@ class NetMulti(Block):
     def oracle(self, case, obs):
         out = []
         pre = obs["desc0"]
-        B_ = {"latent": (8, 128), "enc_latent": (8, 128), "head.width": (64, 500), "head.layers": (1, 3), "cnn.width": (8, 48), "cnn.layers": (1, 6)}
+        B_ = {k: tuple(v) for k, v in obs["bounds"].items()}      # the bounds the network declares in its constructor description
 
         def q(d):
             r = [("latent", d["latent"]), ("enc_latent", d["enc_latent"]), ("head.layers", d["head"]["layers"]), ("cnn.layers", d["cnn"]["layers"])]
